@@ -63,6 +63,11 @@ pub struct Action {
     pub first: Kind,
     /// frames sent afterwards on the same stream (only if the server answered Ok)
     pub then: Vec<Kind>,
+    /// publisher registrations only: once a library subscriber listens, the raw publisher sends
+    /// (laid out by hand, not by the library's encoder) a message whose frame payload is this many
+    /// bytes short of the frame limit; the subscriber must stay served
+    #[serde(default)]
+    pub at_limit_slack: Option<usize>,
 }
 
 #[derive(Clone, Debug, Serialize, Deserialize)]
@@ -123,7 +128,11 @@ pub fn gen_script(rng: &mut Rng) -> FramesScript {
                 // the megabyte-sized request is kept rare
                 then.push(if k == Kind::MessageNearLimit && !rng.chance(1, 3) { Kind::Message } else { k });
             }
-            Action { prior, first, then }
+            let at_limit_slack = if first == Kind::RegPub && prior != Prior::UsedReqRep && rng.chance(1, 4) { Some(*rng.pick(&[0usize, 0, 1, 4, 8, 9, 40])) } else { None };
+            if at_limit_slack.is_some() {
+                then.clear();
+            }
+            Action { prior, first, then, at_limit_slack }
         })
         .collect();
     FramesScript { net: NetCfg::calm(rng.next()), rt_seed: rng.next(), actions }
@@ -276,6 +285,10 @@ async fn scenario(world: Rc<World>, sc: FramesScript) -> AResult<(Vec<ActionRepo
                         let r: AResult<bool> = async {
                             let mut s = ACTOR.scope(h.ga, h.a.subscriber(&topic_s).with_decoder(StringCodec).open()).await?;
                             tokio::time::sleep(Duration::from_millis(500)).await;
+                            if let Some(slack) = act.at_limit_slack {
+                                let big = vec![b'y'; message_len_for_slack(slack)];
+                                stream.write().write_all(&hand_encode_message(&big)).await.map_err(|e| anyhow!("{e}"))?;
+                            }
                             stream.send(Frame::Message(MessagePayload { headers: None, message: Bytes::from(format!("probe{i}")) })).await.map_err(|e| anyhow!("{e}"))?;
                             let mut seen = false;
                             for _ in 0..20 {
@@ -412,6 +425,14 @@ pub fn execute(prop: &str, sc: &FramesScript, opts: &ExecOpts) -> Outcome {
                         out.fault_n("frames_after_registration", act.then.len() as u64);
                         let is_reg = role_of(act.first).is_some();
                         match (&rep.answer, rep.served, rep.refused_after_ok) {
+                            (Some(Answer::Ok), Some(false), None) if act.at_limit_slack.is_some() => {
+                                out.violate(
+                                    prop,
+                                    "peers-abandoned-after-legal-frame",
+                                    &sig,
+                                    format!("action {i}: a publisher sent a message whose frame payload is {} bytes short of the frame limit; the message it sent next never reached the subscriber that was listening on the topic", act.at_limit_slack.unwrap()),
+                                );
+                            }
                             (Some(Answer::Ok), Some(false), None) => {
                                 out.violate(
                                     prop,
@@ -434,6 +455,9 @@ pub fn execute(prop: &str, sc: &FramesScript, opts: &ExecOpts) -> Outcome {
                         }
                         if rep.same_topic_usable == Some(false) {
                             out.violate(prop, "topic-unusable-after-hostile-frames", &sig, format!("action {i} ({:?} then {:?} on {:?}): well-behaved clients could no longer complete a round trip on that topic", act.first, act.then, act.prior));
+                        }
+                        if act.at_limit_slack.is_some() {
+                            out.fault("raw_publisher_frame_at_limit");
                         }
                         if matches!((act.prior, role_of(act.first)), (Prior::UsedPubSub, Some(Role::Replier | Role::Requestor)) | (Prior::UsedReqRep, Some(Role::Publisher | Role::Subscriber))) {
                             out.probe("role_kind_mismatch");
@@ -498,6 +522,11 @@ impl Family for FramesFamily {
             for k in 0..sc.actions[i].then.len() {
                 let mut c = sc.clone();
                 c.actions[i].then.remove(k);
+                out.push(c);
+            }
+            if sc.actions[i].at_limit_slack.is_some() {
+                let mut c = sc.clone();
+                c.actions[i].at_limit_slack = None;
                 out.push(c);
             }
             if sc.actions[i].prior != Prior::Fresh {
